@@ -19,7 +19,13 @@ from .. import tablekit as tk
 DTYPES = ["int", "flt", "str", "bool", "time", "cat"]
 IKINDS = ["int64", "int64", "range", "int32"]
 MODES = ["clean", "clean", "clean", "newcol_birth", "conflict_initial", "sloppy_initial", "conflict_birth", "sloppy_birth",
-         "missing_rows_initial", "nonew_initial", "partial_birth", "zero_pop"]
+         "missing_rows_initial", "nonew_initial", "partial_birth", "zero_pop",
+         "xdtype_initial", "xdtype_initial", "xdtype_birth", "xdtype_birth"]
+OVERLAP = ("conflict_initial", "sloppy_initial", "conflict_birth", "sloppy_birth", "xdtype_initial", "xdtype_birth")
+# a second component re-supplying a column with ANOTHER dtype than the column holds: (column dtype, update dtype)
+XPAIRS = [("int", "flt"), ("int", "i32"), ("int", "bool"), ("flt", "int"), ("flt", "f32"), ("bool", "int"), ("bool", "flt"),
+          ("str", "int"), ("str", "cat"), ("str", "obj"), ("cat", "str"), ("cat", "obj")]
+XRELS = ["equal", "differ", "lossy"]
 
 
 class C13(tk.TableProp):
@@ -41,27 +47,33 @@ class C13(tk.TableProp):
     def boundary(self):
         rng = random.Random("C13-boundary")
         return ([self._gen(rng, "quick", mode=m) for m in MODES[2:]] + [self._gen(rng, "quick", mode="clean", pop=p) for p in (0, 1)]
-                + [self._gen(rng, "quick", mode="clean", nocol=k) for k in ("builder", "component", "ledger", "all")])
+                + [self._gen(rng, "quick", mode="clean", nocol=k) for k in ("builder", "component", "ledger", "all")]
+                + [self._gen(rng, "quick", mode=m, xpair=p, xrel=r, pop=3) for p in XPAIRS for r in XRELS
+                   for m in ("xdtype_initial", "xdtype_birth")])
 
     def generate(self, rng, i, tier):
         return self._gen(rng, tier)
 
-    def _gen(self, rng, tier, mode=None, pop=None, nocol=None):
+    def _gen(self, rng, tier, mode=None, pop=None, nocol=None, xpair=None, xrel=None):
         mode = mode or rng.choice(MODES)
         ncomp = rng.randint(1, 3)
-        if mode in ("conflict_initial", "sloppy_initial", "conflict_birth", "sloppy_birth"):
+        if mode in OVERLAP:
             ncomp = max(ncomp, 2)
+        xpair = rng.choice(XPAIRS) if xpair is None else tuple(xpair)
+        xrel = rng.choice(XRELS) if xrel is None else xrel
         names = iter(["x", "y", "z", "u", "v", "w"])
         comps, dt = [], {"tracked": "bool"}
         for j in range(ncomp):
             cols = [[next(names), rng.choice(DTYPES)] for _ in range(rng.randint(1, 2))]
             for c, d in cols:
                 dt[c] = d
+            if mode.startswith("xdtype"):
+                cols[0][1] = xpair[0]             # any component's first column may be the one that is re-supplied
             comps.append({"name": f"c{j}", "cols": cols, "views": [], "requires": [comps[j - 1]["cols"][0][0]] if j else []})
         # views: the component's own columns (+ the first column of the previous component for the overlap modes, + zz)
         for j, c in enumerate(comps):
             vc = [x for x, _ in c["cols"]]
-            if j and mode in ("conflict_initial", "sloppy_initial", "conflict_birth", "sloppy_birth"):
+            if j and mode in OVERLAP:
                 vc = vc + [comps[j - 1]["cols"][0][0]]
             if mode == "newcol_birth":
                 vc = vc + ["zz"]
@@ -92,6 +104,11 @@ class C13(tk.TableProp):
             if rng.random() < 0.4:
                 rng.shuffle(rows)
             cols = [[x, d, tk.value_tokens(d, rng, len(rows), allow_null=d != "int" and rng.random() < 0.3)] for x, d in c["cols"]]
+            if mode.startswith("xdtype"):
+                x, d = c["cols"][0]
+                cols[0][2] = ([f"s{rng.randint(0, 9)}" for _ in rows] if (d, xpair[1]) == ("str", "int")
+                              else [f"i{rng.randint(0, 1)}" for _ in rows] if (d, xpair[1]) == ("int", "bool")
+                              else tk.value_tokens(d, rng, len(rows), allow_null=False))
             if overlap is not None:
                 cols.append(overlap(rows))
             if only_existing:
@@ -148,6 +165,40 @@ class C13(tk.TableProp):
                 return [oc, dt[oc], toks]
             return mk
 
+        def overlap_x(j):
+            """the previous component's first column re-supplied in another dtype: `equal` = the same Python values, `differ` =
+            clearly other values, `lossy` = values that differ but would coincide after a cast to the column's dtype"""
+            oc, d = comps[j - 1]["cols"][0]
+            ud = xpair[1]
+
+            def conv(t, rel):
+                v = tk.untok(t)
+                if (d, ud) in (("int", "flt"), ("int", "i32"), ("flt", "int"), ("flt", "f32")):
+                    if ud in ("int", "i32"):
+                        base = int(v)                                           # (a fractional float offered as int: lossy by itself)
+                        return f"i{base + (3 if rel == 'differ' else 0)}"
+                    x = float(v) + (3 if rel == "differ" else 0.5 if rel == "lossy" and d == "int" else 0)
+                    return tk.ftok(x)
+                if (d, ud) == ("int", "bool"):
+                    return "b1" if (v != 0) != (rel == "differ") else "b0"
+                if d == "bool":
+                    n = (1 if v else 0) if rel == "equal" else ((0 if v else 1) if rel == "differ" else (2 if v else 0))
+                    return f"i{n}" if ud == "int" else tk.ftok(float(n) + (0.5 if rel == "lossy" and v else 0))
+                if (d, ud) == ("str", "int"):
+                    return f"i{int(v) + (1 if rel == 'differ' else 0)}"        # "3" vs 3: other Python values, equal after astype(str)
+                # str / cat / obj among each other: the same text, or another category
+                return t if rel != "differ" else "s" + rng.choice([c for c in tk.CATS if c != v])
+
+            def mk(rows):
+                toks = [given[(oc, r)] for r in rows]
+                if xrel == "equal":
+                    new = [conv(t, "equal") for t in toks]
+                else:
+                    k = rng.randrange(len(rows)) if rows else 0
+                    new = [conv(t, xrel if i == k or rng.random() < 0.3 else "equal") for i, t in enumerate(toks)]
+                return [oc, ud, new]
+            return mk
+
         # initial creation
         init = {}
         labels0 = list(range(pop))
@@ -156,9 +207,15 @@ class C13(tk.TableProp):
             acts = []
             if mode in ("conflict_initial", "sloppy_initial") and j == bad_j and pop:
                 a = fill(j, labels0, overlap=overlap_of(j, same=(mode == "sloppy_initial")))
-                a["rows"], order = sorted(a["rows"]), None         # `equals` compares positionally: keep the table's order
-                a = self._reorder(a, labels0)
+                a = self._reorder(a, labels0)                     # `equals` compares positionally: keep the table's order
                 acts.append(a)
+            elif mode == "xdtype_initial" and j == bad_j and pop:
+                a = self._reorder(fill(j, labels0, overlap=overlap_x(j)), labels0)
+                a["catch"] = rng.random() < 0.5
+                a["kind"] = f"xdtype:{xpair[0]}<-{xpair[1]}:{xrel}"
+                acts.append(a)
+                if a["catch"]:
+                    acts.append(fill(j, labels0))                  # then the component does its own job properly
             elif mode == "missing_rows_initial" and j == bad_j and pop > 1:
                 acts.append(fill(j, labels0, drop_row=True))
             else:
@@ -167,10 +224,11 @@ class C13(tk.TableProp):
                 again = dict(acts[0], cols=[list(c) for c in acts[0]["cols"]], catch=rng.random() < 0.5)
                 again = self._reorder(again, labels0)
                 acts.append(again)
-            for a in acts[:1]:
-                remember(a)
+            for a in (acts[-1:] if mode == "xdtype_initial" and j == bad_j else acts[:1]):
+                remember({"rows": a["rows"], "cols": [c for c in a["cols"] if c[0] in [x for x, _ in comps[j]["cols"]]]})
             init[f"c{j}"] = acts
         aborted = (mode in ("conflict_initial",) and pop > 0) or (mode == "missing_rows_initial" and pop > 1) or \
+                  (mode == "xdtype_initial" and pop > 0 and not init[f"c{bad_j}"][0]["catch"]) or \
                   (mode == "nonew_initial" and pop > 0 and not init[f"c{bad_j}"][1]["catch"])
         hooks = {}
         n = pop
@@ -200,13 +258,20 @@ class C13(tk.TableProp):
                                         a = fill(q, labels, overlap=overlap_of(q, same=(mode == "sloppy_birth")))
                                         fills[f"c{q}"] = [a]
                                         stop = mode == "conflict_birth"
+                                    elif special and mode == "xdtype_birth" and q > 0:
+                                        a = fill(q, labels, overlap=overlap_x(q))
+                                        a["catch"] = rng.random() < 0.5
+                                        a["kind"] = f"xdtype:{xpair[0]}<-{xpair[1]}:{xrel}"
+                                        fills[f"c{q}"] = [a] + ([fill(q, labels)] if a["catch"] else [])
+                                        stop = not a["catch"]
                                     elif special and mode == "partial_birth" and k > 1 and all(d in ("flt", "str", "time") for _, d in comps[q]["cols"]):
                                         fills[f"c{q}"] = [fill(q, labels, drop_row=True)]
                                     else:
                                         fills[f"c{q}"] = extras(labels, True) + [fill(q, labels)]
                                     if special:
                                         special_done = True
-                                    remember(fills[f"c{q}"][-1])
+                                    last = fills[f"c{q}"][-1]
+                                    remember({"rows": last["rows"], "cols": [c for c in last["cols"] if c[0] in [x for x, _ in comps[q]["cols"]]]})
                                     if stop:
                                         break
                                 acts.append({"a": "create", "k": k, "comp": comps[j]["name"], "fills": fills,
@@ -426,6 +491,9 @@ class C13(tk.TableProp):
         t = ["nocol-initializer:" + (c.get("reg", "builder") if not c["cols"] else "") for c in case["comps"] if not c["cols"]]
         t += ["nocol-initializer:ledger" for c in case["comps"] for _ in c.get("ledgers", [])]
         t += ["registered-by-component" for c in case["comps"] if c.get("reg") == "component" and c["cols"]]
+        for acts in list(case.get("init", {}).values()) + [f for h in case.get("hooks", {}).values() for a in h if a["a"] == "create"
+                                                           for f in a["fills"].values()]:
+            t += [a["kind"] for a in acts if a.get("kind")]
         t += ["mode:" + case.get("mode", "?"), "clock:" + case["clock"]["kind"], f"comps:{len(case['comps'])}", f"pop:{min(case['pop'], 6)}"]
         for i, e, prev, cr in tk.walk(obs):
             if e["t"] == "create":
